@@ -213,6 +213,89 @@ def _builder_map(prog, fnp, tx_owners, pset_owner):
     return f, out, ctrl
 
 
+
+def _presence_table(prog, fnpath, base_re, fields):
+    """For the TxOut literal built in `fnpath`: which variant the asset/value component takes for every presence
+    pattern of the PSET output's (commitment, explicit) fields. Handles both the `match (comm, explicit)` form (branches
+    in the listing) and the Option-combinator form (`comm.map(C).or(expl.map(E)).unwrap_or_default()`)."""
+    import re as _re
+    from itertools import product as _product
+    from .c15 import Fn as _Fn, sh as _sh
+    F = _Fn(prog, fnpath)
+
+    def ev(t, env, vars_):
+        """abstract Option/enum value: ('some', tag) | ('none',) | ('variant', name) | ('?', text)"""
+        k = t[0]
+        if k == "var":
+            return vars_.get(t[1], ("?", "unset"))
+        if k == "some":
+            return ev(t[1], env, vars_)
+        if k == "fld":
+            fld = t[3]
+            if fld in env:
+                return ("some", fld) if env[fld] else ("none",)
+        if k == "agg":
+            name = t[1].split("::")[-1]
+            if name in ("Null", "Explicit", "Confidential"):
+                return ("variant", name)
+            if name == "None":
+                return ("none",)
+        if k == "call":
+            n = t[1]
+            a = t[2]
+            if n.endswith("Option::<T>::map") and len(a) == 2:
+                x = ev(a[0], env, vars_)
+                if x[0] == "none":
+                    return x
+                f = _sh(a[1])
+                m = _re.search(r"::(Explicit|Confidential)", f)
+                return ("variant", m.group(1)) if m else ("some", f[:40])
+            if n.endswith("Option::<T>::or") and len(a) == 2:
+                x = ev(a[0], env, vars_)
+                return x if x[0] != "none" else ev(a[1], env, vars_)
+            if n.endswith("unwrap_or_default") and len(a) == 1:
+                x = ev(a[0], env, vars_)
+                return ("variant", "Null") if x[0] == "none" else x
+        return ("?", _sh(t)[:60])
+
+    def walk(stmts, env, vars_):
+        for s_ in stmts:
+            if s_[0] == "set" and s_[1][0] == "var":
+                vars_[s_[1][1]] = ev(s_[2], env, vars_)
+            elif s_[0] == "if":
+                cs = _sh(s_[1])
+                m = _re.match(r"^discr\(%s\.(\w+)\)$" % base_re, cs)
+                if m and m.group(1) in env:
+                    v = env[m.group(1)]
+                    arm = "=%d" % v if "=%d" % v in s_[2] else "otherwise"
+                    r = walk(s_[2].get(arm, []), env, vars_)
+                    if r is not None:
+                        return r
+                else:
+                    for arm in s_[2].values():      # conditions on other things: explore every arm, first literal wins
+                        r = walk(arm, env, dict(vars_))
+                        if r is not None:
+                            return r
+            elif s_[0] == "while":
+                r = walk(s_[3], env, vars_)
+                if r is not None:
+                    return r
+            elif s_[0] == "ret" and "Err{" in _sh(s_[1]) and "Missing" in _sh(s_[1]):
+                return "Err"
+            for t in ([s_[1]] if s_[0] == "ret" else list(s_[2]) if s_[0] == "do" else [s_[2]] if s_[0] in ("set", "store") else []):
+                from ..mir import walk_term
+                for x in walk_term(t):
+                    if isinstance(x, tuple) and x and x[0] == "agg" and x[1] == "transaction::TxOut::TxOut":
+                        comp = dict(zip(x[2], x[3]))
+                        return {k_: ev(comp[k_], env, vars_) for k_ in ("asset", "value")}
+        return None
+
+    table = {}
+    for bits in _product([0, 1], repeat=len(fields)):
+        env = dict(zip(fields, bits))
+        table[bits] = walk(F.L, env, {})
+    return F, table
+
 def _mapping(c, prog):
     _PROG[0] = prog
     fe, ein, eout = _extract_maps(prog)
@@ -238,6 +321,34 @@ def _mapping(c, prog):
                 c.inst("R3.written-read-back", "%s.%s<-%s.%s" % (powner, P, side, X), bool(back),
                        "%s stores %s.%s in %s.%s, but extract_tx does not rebuild %s.%s from that field: the value is lost on tx -> PSET -> tx"
                        % (ffn.path, side, X, powner, P, side, X), ffn.where(), fe.path)
+    # which source wins when both the commitment and the explicit field are present (after blinding both are): the two
+    # views of a PSET output must agree, and the commitment has priority
+    FLD = ("asset_comm", "asset", "amount_comm", "amount")
+    Ft, tt = _presence_table(prog, OUTPUT + "::to_txout", r"arg1", FLD)
+    Fe_, te = _presence_table(prog, "pset::PartiallySignedTransaction::extract_tx", r"elem\(arg1\.outputs\)", FLD)
+
+    def want(ac, a, vc, v, strict):
+        wa = "Confidential" if ac else "Explicit" if a else ("Err" if strict else "Null")
+        wv = "Confidential" if vc else "Explicit" if v else ("Err" if strict else "Null")
+        return wa, wv
+    bad_t, bad_e, bad_s = [], [], []
+    for bits in sorted(tt):
+        wa, wv = want(*bits, strict=False)
+        g = tt[bits]
+        got = (g["asset"][1], g["value"][1]) if isinstance(g, dict) else g
+        if got != (wa, wv):
+            bad_t.append((bits, got))
+        ea, evv = want(*bits, strict=True)
+        g2 = te[bits]
+        got2 = (g2["asset"][1], g2["value"][1]) if isinstance(g2, dict) else g2
+        exp2 = "Err" if "Err" in (ea, evv) else (ea, evv)
+        if got2 != exp2:
+            bad_e.append((bits, got2))
+        if isinstance(g, dict) and isinstance(g2, dict) and (g["asset"], g["value"]) != (g2["asset"], g2["value"]):
+            bad_s.append((bits, got, got2))
+    c.inst("R3.source-priority", "Output::to_txout: commitment wins over the explicit field, for asset and value (16 presence patterns)", not bad_t, "deviations %s" % bad_t[:3], Ft.f.where(), Ft.f.path)
+    c.inst("R3.source-priority", "extract_tx: commitment wins over the explicit field; neither present is an error (16 presence patterns)", not bad_e, "deviations %s" % bad_e[:3], Fe_.f.where(), Fe_.f.path)
+    c.inst("R3.source-priority", "both views choose the same source on every pattern where both produce an output", not bad_s, "deviations %s" % bad_s[:3], Ft.f.where(), Ft.f.path)
     # sibling agreement: Output::to_txout vs the output half of extract_tx
     ft, tmap = _struct_return_map(prog, OUTPUT + "::to_txout", [OUTPUT])
     for X in sorted(set(tmap) | set(eout)):
